@@ -335,6 +335,7 @@ func main() {
 	p.constS("single_newline", "SingleNewLine")
 	p.constS("double_newline", "DoubleNewLine")
 	p.constS("version", "VERSION")
+	p.constS("smime_sig_type", "TypeSMIMESigned")
 	for _, c := range [][2]string{{"enc_qp", "EncodingQP"}, {"enc_b64", "EncodingB64"}, {"enc_none", "NoEncoding"}, {"enc_7bit", "EncodingUSASCII"},
 		{"hdr_from", "HeaderFrom"}, {"hdr_to", "HeaderTo"}, {"hdr_cc", "HeaderCc"}, {"hdr_bcc", "HeaderBcc"}, {"hdr_reply_to", "HeaderReplyTo"}, {"hdr_envelope_from", "HeaderEnvelopeFrom"},
 		{"mime_alternative", "MIMEAlternative"}, {"mime_mixed", "MIMEMixed"}, {"mime_related", "MIMERelated"}, {"mime_smime_signed", "MIMESMIMESigned"}} {
